@@ -793,6 +793,15 @@ class Executor(object):
                 ba = z3.BoolVal(ba) if isinstance(ba, bool) else ba; bb = z3.BoolVal(bb) if isinstance(bb, bool) else bb
                 return {'and': z3.And(ba, bb), 'or': z3.Or(ba, bb), 'xor': z3.Xor(ba, bb)}[op]
             if is_conc(a) and is_conc(b): return {'and': a & b, 'or': a | b, 'xor': a ^ b}[op]
+            if op == 'and' and (is_conc(a) or is_conc(b)):
+                c, x = (a, b) if is_conc(a) else (b, a)
+                if 0 <= c < (1 << 31):
+                    # x & mask for a non-negative x (recorded as an overflow-style event otherwise): sum of the selected bits
+                    st.ovf.append(x < 0)
+                    tot = 0
+                    for k in range(c.bit_length()):
+                        if (c >> k) & 1: tot = tot + ((x / (1 << k)) % 2) * (1 << k)
+                    return tot
             raise Unsupported('bitwise %s on symbolic operands' % op)
         if op in ('shl', 'ashr', 'lshr'):
             if is_conc(b):
